@@ -121,6 +121,11 @@ func (h *NFSProcedureHandler) handleSetattr(body io.Reader, reply *RPCReply, aut
 		if sattr.Size > uint64(math.MaxInt64) {
 			return nfsErrorWithWcc(reply, NFSERR_INVAL), nil
 		}
+		// Enforce the export's MaxFileSize: growing a file beyond it is refused
+		if maxSize := h.server.handler.policy.Load().MaxFileSize; maxSize > 0 &&
+			int64(sattr.Size) > maxSize && int64(sattr.Size) > preAttrs.Size {
+			return nfsErrorWithWcc(reply, NFSERR_FBIG), nil
+		}
 		if err := node.Truncate(int64(sattr.Size)); err != nil {
 			return nfsErrorWithWcc(reply, mapError(err)), nil
 		}
